@@ -38,6 +38,7 @@ func (p *PcClient) getProjectState(withMemory bool) (*types.ProjectState, error)
 	defer resp.Body.Close()
 	if resp.StatusCode != http.StatusOK {
 		log.Error().Msgf("failed to get project state - unexpected status code: %s", resp.Status)
+		return nil, responseError(resp)
 	}
 	var sResp types.ProjectState
 
